@@ -2496,7 +2496,7 @@ class CencSampleEncryptionBox(FullBox):
         return rv
 
     def encode_fields(self, dest):
-        if len(self.samples) > 0:
+        if any(s.subsamples for s in self.samples):
             self.flags |= 0x02
         super().encode_fields(dest)
 
